@@ -464,6 +464,10 @@ pub struct SeqGenCfg {
     pub work_cap: usize,
     /// smallest recipe n
     pub min_large: usize,
+    /// when set: half of the recipe lengths are k*period + {-1,0,1}
+    pub period_bias: Option<usize>,
+    /// when set: every alphabet contains a symbol of at least this value (forces levels)
+    pub min_max_symbol: Option<u128>,
 }
 
 impl SeqGenCfg {
@@ -476,6 +480,8 @@ impl SeqGenCfg {
             huff_cap: 1 << 20,
             work_cap: 3_000_000,
             min_large: 5_001,
+            period_bias: None,
+            min_max_symbol: None,
         }
     }
     pub fn thorough(kinds: &[TreeKind]) -> Self {
@@ -499,6 +505,8 @@ pub fn symbol_cap(kind: TreeKind, ty: ElemTy, huff_cap: u128) -> u128 {
 pub fn seq_case(cfg: SeqGenCfg) -> BoxedStrategy<SeqCase> {
     let kinds = cfg.kinds.clone();
     let types = cfg.types.clone();
+    let min_max_symbol = cfg.min_max_symbol;
+    let huff_cap = cfg.huff_cap;
     (
         proptest::sample::select(kinds),
         proptest::sample::select(types),
@@ -517,7 +525,22 @@ pub fn seq_case(cfg: SeqGenCfg) -> BoxedStrategy<SeqCase> {
                     ty.bits() as usize
                 };
                 let hi = (cfg.work_cap / levels.max(1)).clamp(cfg.min_large + 1, cfg.max_n);
-                recipe_content(cap, max_d, cfg.min_large, hi)
+                let base = recipe_content(cap, max_d, cfg.min_large, hi);
+                match cfg.period_bias {
+                    None => base,
+                    Some(per) => {
+                        let lo = cfg.min_large;
+                        (base, 1usize..=(hi / per).max(1), 0usize..3, any::<bool>())
+                            .prop_map(move |(c, k, d, bias)| match c {
+                                Content::Recipe(mut r) if bias => {
+                                    r.n = (k * per + d).saturating_sub(1).clamp(lo, hi);
+                                    Content::Recipe(r)
+                                }
+                                other => other,
+                            })
+                            .boxed()
+                    }
+                }
             } else {
                 explicit_content(cap, max_d, 5_000)
             };
@@ -528,7 +551,18 @@ pub fn seq_case(cfg: SeqGenCfg) -> BoxedStrategy<SeqCase> {
             ];
             (Just(kind), Just(ty), how, content, any::<u64>(), any::<u64>())
         })
-        .prop_map(|(kind, ty, how, content, tie_seed, plan_seed)| {
+        .prop_map(move |(kind, ty, how, content, tie_seed, plan_seed)| {
+            let content = match (min_max_symbol, content) {
+                (Some(mm), Content::Recipe(mut r)) => {
+                    let cap = symbol_cap(kind, ty, huff_cap);
+                    let want = mm.min(cap);
+                    if r.alphabet.iter().all(|&x| x < want) {
+                        r.alphabet.push(want);
+                    }
+                    Content::Recipe(r)
+                }
+                (_, c) => c,
+            };
             // the empty sequence can also be obtained through Default
             let how = if content.len_hint() == 0 && plan_seed & 1 == 1 { How::Default } else { how };
             SeqCase { kind, ty, how, content, tie_seed, plan_seed }
